@@ -364,6 +364,13 @@ def sweep():
             want = "encrypted" if flagged is not None else "ok"
             if res[0] != want or (want == "encrypted" and res[1] != 0):
                 return fail("read_archive(zip)", {"members": n, "flagged_index": flagged}, want + " (0 results before)", str(res))
+    # a flagged member that is never read (hidden / resource fork / unsupported type / nested archive) still makes the archive encrypted
+    for skipped in (".hidden.txt", "__MACOSX/._a.txt", "blob.unsupported-ext", "inner.zip"):
+        for order in (0, 1):
+            mem = [(skipped, b"secret", 1, None), ("a.txt", b"plain text", 0, None)]
+            res = run(read_archive, zip_bytes(mem[::-1] if order else mem), "x.zip")
+            if res[0] != "encrypted" or res[1] != 0:
+                return fail("read_archive(zip)", {"members": [m_[0] for m_ in (mem[::-1] if order else mem)], "flagged": skipped}, "encrypted (0 results before)", str(res))
     res = run(read_archive, zip_bytes([("d/", b"", 1, None), ("d/a.txt", b"plain", 0, None)]), "x.zip")      # flag on a directory entry only
     if res[0] == "encrypted":
         return fail("read_archive(zip)", {"members": "directory entry with flag bit 0, plain file"}, "not encrypted", str(res))
